@@ -409,6 +409,11 @@ def vary_use(rng, earlier, fresh, makes):
         for k in ('scale', 'border'):
             if k in skw and (k != 'scale' or (k2 not in ('txt', 'ans') and (k2 in opts.VECTOR_KINDS or isinstance(skw[k], int)))):
                 base[k] = skw[k]
+        # the same colours through another writer (colour parsing is shared between writers)
+        if k2 in ('svg', 'png'):
+            for k in ('dark', 'light') + (opts.MODULE_COLOR_KEYS if kind in opts.COLORFUL_KINDS else ()):
+                if k in skw:
+                    base[k] = skw[k]
         new.update(kind=k2, skw=core.enc(base))
         new.pop('ext', None)
         new.pop('kind_spelling', None)
